@@ -25,7 +25,13 @@ func c16Gen(g *G) {
 	g.Emit("c16.run o,o g0;w1;zt;zc;c(zt,p);a0;j;g1;w2;a1", "damaged-gzip")
 	g.Emit("c16.run o,o N5(u);N6(x);N7(p);N5(n88);g1;w1;c(p,a1)", "nested-containers")
 	g.Emit("c16.run o,o N6(u);g1;w1;N4(a1)", "nested-containers")
-	g.Emit("c16.run o,o,o g0+1+2;w3;N9(a0);N2(c(a1,u));N5(a2)", "nested-containers")
+	g.Emit("c16.run o,o,o g0+1+2;w3;N9(p);N2(c(a1,u));N4(a2);N2(c(u,N1(a0)))", "nested-containers")
+	// one message of thousands of nested containers (every accepted level would hold a copy of the levels below
+	// it: memory quadratic in the depth) must cost next to nothing and must not delay the probe
+	g.Emit("c16.run o,o N3000(p);N20000(u);g1;w1;a1", "nested-containers-deep")
+	if g.Thorough() {
+		g.Emit("c16.run o,o N100000(x);N400000(p);g1;w1;c(p,a1)", "nested-containers-deep")
+	}
 	n := g.N(60, 1500)
 	for i := 0; i < n; i++ {
 		var plan []string
@@ -79,7 +85,7 @@ func c16Gen(g *G) {
 		}
 		switch r.Intn(5) {
 		case 0:
-			plan = append(plan, fmt.Sprintf("N%d(a1)", 1+r.Intn(6)))
+			plan = append(plan, fmt.Sprintf("N%d(a1)", 1+r.Intn(4))) // an answer nested deeper than the client accepts is lost with its container
 		case 1:
 			plan = append(plan, "c(p,a1)")
 		default:
